@@ -97,10 +97,12 @@ structure Inv (pr : Params) (s : Cfg) : Prop where
   eosCW : s.cpc = .eosWait → s.cCur = some .eos
   doneP : s.ppc = .done → s.cancelled = true
   doneC : s.cpc = .done → s.cancelled = true
-  llNoEos : pr.mode = .lowLatency → s.eosDone = false ∧ (s.ppc = .pushLock ∨ s.ppc = .pushCheckEmpty ∨ s.ppc = .pushAppend ∨ s.ppc = .pushSignal ∨ s.ppc = .pushUnlock → s.pItem ≠ .eos)
+  /-- `runLowLatency` has no back-pressure: its producer is never inside `waitUntilSizeIsBelow`
+      (its end-of-stream marker, fix-F28, is covered by `shape` / `eosP` like the traditional one) -/
+  llNoWait : pr.mode = .lowLatency → ¬ s.ppc.inWaitAny
 
 theorem inv_init (pr : Params) : Inv pr init := by
-  constructor <;> simp [init, PPc.holds, CPc.holds, history, segLen]
+  constructor <;> simp [init, PPc.holds, CPc.holds, PPc.inWaitAny, history, segLen]
 
 /-- `Inv` as one conjunction (so that a single `simp_all` can process all clauses at once). -/
 theorem inv_iff (pr : Params) (s : Cfg) : Inv pr s ↔
@@ -139,7 +141,7 @@ theorem inv_iff (pr : Params) (s : Cfg) : Inv pr s ↔
   (s.cpc = .eosWait → s.cCur = some .eos) ∧
   (s.ppc = .done → s.cancelled = true) ∧
   (s.cpc = .done → s.cancelled = true) ∧
-  (pr.mode = .lowLatency → s.eosDone = false ∧ (s.ppc = .pushLock ∨ s.ppc = .pushCheckEmpty ∨ s.ppc = .pushAppend ∨ s.ppc = .pushSignal ∨ s.ppc = .pushUnlock → s.pItem ≠ .eos))) := by
+  (pr.mode = .lowLatency → ¬ s.ppc.inWaitAny)) := by
   constructor
   · intro h
     exact ⟨h.1, h.2, h.3, h.4, h.5, h.6, h.7, h.8, h.9, h.10, h.11, h.12, h.13, h.14, h.15, h.16, h.17, h.18, h.19, h.20, h.21, h.22, h.23, h.24, h.25, h.26, h.27⟩
@@ -148,7 +150,7 @@ theorem inv_iff (pr : Params) (s : Cfg) : Inv pr s ↔
 
 /-- finishing tactic: rewrite the goal to the conjunction, let `simp_all` use the simplified
     hypotheses, close linear-arithmetic leftovers with `omega` -/
-macro "qfin" : tactic => `(tactic| (rw [inv_iff]; simp_all [PPc.holds, CPc.holds] <;> (try and_intros) <;> try omega))
+macro "qfin" : tactic => `(tactic| (rw [inv_iff]; simp_all [PPc.holds, CPc.holds, PPc.inWaitAny] <;> (try and_intros) <;> try omega))
 
 theorem inv_pStep {pr : Params} {s s' : Cfg} (h : Inv pr s) (hs : pStep pr s = some s') : Inv pr s' := by
   rw [inv_iff] at h
@@ -169,10 +171,10 @@ theorem inv_pStep {pr : Params} {s s' : Cfg} (h : Inv pr s) (hs : pStep pr s = s
       intro x; rw [← List.append_assoc, h3]
     rcases h7 (by simp [hp]) with hi | hi
     · rw [inv_iff]
-      simp_all [PPc.holds, CPc.holds, history_succ, segLen_append_seg]
+      simp_all [PPc.holds, CPc.holds, PPc.inWaitAny, history_succ, segLen_append_seg]
       and_intros <;> first | omega | (intro h; by_cases hq : s.queue = [] <;> simp_all) | skip
     · rw [inv_iff]
-      simp_all [PPc.holds, CPc.holds, history_eos, segLen_append_eos]
+      simp_all [PPc.holds, CPc.holds, PPc.inWaitAny, history_eos, segLen_append_eos]
       and_intros <;> first | omega | (intro h; by_cases hq : s.queue = [] <;> simp_all) | skip
   case pushSignal =>
     simp at hs; subst hs
@@ -286,13 +288,13 @@ theorem inv_cStep {pr : Params} {s s' : Cfg} (h : Inv pr s) (hs : cStep s = some
         have := segLen_cons_seg k rest
         rw [inv_iff]
         cases hm : pr.mode <;> cases he : s.eosDone <;>
-          (simp_all [PPc.holds, CPc.holds] <;> (try and_intros) <;> first | omega | (intros; omega))
+          (simp_all [PPc.holds, CPc.holds, PPc.inWaitAny] <;> (try and_intros) <;> first | omega | (intros; omega))
       | eos =>
         have he : s.eosDone = true := eos_mem_history (k := s.nextId) (by rw [← h4, ← h3, hq]; simp)
         have : segLen (Item.eos :: rest) = segLen rest := by simp [segLen, Item.isSeg]
         rw [inv_iff]
         cases hm : pr.mode <;>
-          (simp_all [PPc.holds, CPc.holds] <;> (try and_intros) <;> first | omega | (intros; omega))
+          (simp_all [PPc.holds, CPc.holds, PPc.inWaitAny] <;> (try and_intros) <;> first | omega | (intros; omega))
   case pullSignal =>
     simp at hs; subst hs; qfin
   case pullUnlockExit =>
